@@ -366,6 +366,7 @@ func runC17(t *testing.T, spec RunSpec) *RunResult {
 				// drain everything that may flow (canonical order), so that only the fault holds traffic back
 				for round := 0; round < 2000; round++ {
 					synctest.Wait()
+					prng.Heartbeat.Add(1)
 					released := false
 					for _, name := range cw.net.Releasable() {
 						if !(cfg.Fault == "stall" && strings.HasPrefix(name, victimHost+":")) {
